@@ -68,6 +68,21 @@ theorem daughters_volume (pos : Nat → V3 R) (M₁ M₂ D : List Tri) :
     vol6 pos (M₁ ++ opT D) + vol6 pos (M₂ ++ D) = vol6 pos (M₁ ++ M₂) := by
   rw [vol6_append, vol6_append, vol6_append, vol6_opT]; ring
 
+/-- **what the code computes is that signed volume**: `initialize_cell_properties` of a daughter (`Division.initDaughter`)
+    accumulates `vol6c` — the triple products of the positions relative to `get_volume_reference_point()`, the first node of
+    the first face — which for a closed surface equals the un-centred `vol6`, for every position of the nodes -/
+theorem computed_volume_is_signed_volume (pos : Nat → V3 R) (T : List Tri) (h : Closed T) : vol6c pos T = vol6 pos T :=
+  vol6c_eq_vol6 pos T h
+
+/-- … hence, under the interface condition of `daughters_closed`, the volumes the code computes for the two daughters add
+    up to the one it computes for the cut mother, exactly -/
+theorem daughters_volume_computed (pos : Nat → V3 R) {M₁ M₂ D : List Tri} (h : Closed (M₁ ++ M₂))
+    (hD : bdM D = (bdM M₂).map Prod.swap) :
+    vol6c pos (M₁ ++ opT D) + vol6c pos (M₂ ++ D) = vol6c pos (M₁ ++ M₂) := by
+  obtain ⟨h2, h1⟩ := daughters_closed h hD
+  rw [vol6c_eq_vol6 pos _ h1, vol6c_eq_vol6 pos _ h2, vol6c_eq_vol6 pos _ h]
+  exact daughters_volume pos M₁ M₂ D
+
 /-- what `create_daughter_cells` builds (before `initialize_cell_properties`): daughter 1 = the surface faces on the
     non-positive side followed by the reversed interface, daughter 2 = those on the positive side followed by the interface -/
 theorem daughters_shape (m : Mesh R) (fthr : Nat) (p n : V3 R) {T₁ T₂ : List Tri}
